@@ -457,6 +457,7 @@ def BASE(value, base, places=DEFAULT):
             return error.NUM
     if not 2 <= base <= 36 or value < 0:
         return error.NUM
+    base = int(base)  # a radix that arrives as a float (6/2): float arithmetic loses the digits of long numbers
     if value == 0:
         return '0'
     # several digits per division of the whole number (as many as fit a machine word): one division
